@@ -30,7 +30,8 @@ def feature_spec():
                        P("over", "query", I), P("s", "query", S), P("page-size", "query", I), P("flag", "query", B), P("req", "query", S, required=True),
                        P("color", "query", {"type": "string", "enum": ["red", "dark blue"]}),
                        P("csv", "query", arr(S), explode=False), P("exp", "query", arr(S), explode=True), P("dflt", "query", arr(I)),
-                       P("sp", "query", arr(S), style="spaceDelimited", explode=False), P("pipe", "query", arr(S), style="pipeDelimited", explode=False)],
+                       P("sp", "query", arr(S), style="spaceDelimited", explode=False), P("pipe", "query", arr(S), style="pipeDelimited", explode=False),
+                       P("sp2", "query", arr(S), style="spaceDelimited"), P("pipe2", "query", arr(S), style="pipeDelimited")],   # explode defaults to false for these styles
                        "responses": ok}},
         "/headers": {"put": {"operationId": "put_headers", "parameters": [
             P("X-Trace-Id", "header", S, required=True), P("X-Count", "header", I), P("X-Flag", "header", B), P("X-List", "header", arr(S)),
@@ -44,8 +45,10 @@ def feature_spec():
         "/body/bin": {"put": {"operationId": "put_bin", "requestBody": {"required": True, "content": {"application/octet-stream": {"schema": {"type": "string", "format": "binary"}}}}, "responses": ok}},
         "/body/multi": {"post": {"operationId": "post_multi", "requestBody": {"required": True, "content": {"multipart/form-data": {"schema": {
             "type": "object", "properties": {"file": {"type": "string", "format": "binary"}, "note": S}}}}}, "responses": ok}},
+        "/body/multiref": {"post": {"operationId": "post_multi_ref", "requestBody": {"required": True, "content": {"multipart/form-data": {"schema": {"$ref": "#/components/schemas/Upload"}}}}, "responses": ok}},
     }
-    return {"openapi": "3.1.0", "info": {"title": "wire", "version": "1"}, "servers": [{"url": "https://api.example.com" + BASE_PATH}], "paths": paths, "components": {"schemas": {}}}
+    upload = {"type": "object", "required": ["title"], "properties": {"title": S, "count": I, "flag": B, "note": S}}
+    return {"openapi": "3.1.0", "info": {"title": "wire", "version": "1"}, "servers": [{"url": "https://api.example.com" + BASE_PATH}], "paths": paths, "components": {"schemas": {"Upload": upload}}}
 
 
 TRICKY = ["plain", "a/b", "a b", "ü日😀", "100%", "?#&=", "%2F", "a+b", "x;y=z,w", "q\"uote'", "back\\slash", "~-._"]
@@ -74,7 +77,7 @@ def probes():
     out.append(("get_query", {"req": "r", "over": 5, "page-size": -3, "flag": True, "color": "dark blue"}, None))
     out.append(("get_query", {"req": "r", "flag": False, "color": "red", "page-size": 2**63 - 1}, None))
     for vs in (["a"], ["a", "b c"], ["é", "x&y=z"], []):
-        for nm in ("csv", "sp", "pipe", "exp"):
+        for nm in ("csv", "sp", "pipe", "sp2", "pipe2", "exp"):
             out.append(("get_query", {"req": "r", nm: vs}, None))
     for vs in ([1], [1, -2, 3], []):
         out.append(("get_query", {"req": "r", "dflt": vs}, None))
@@ -94,6 +97,8 @@ def probes():
         out.append(("put_bin", {}, body))
     out.append(("post_multi", {}, {"file": [1, 2, 3, 255], "note": "n ü"}))
     out.append(("post_multi", {}, {"note": "only"}))
+    out.append(("post_multi_ref", {}, {"title": "Quarterly report", "count": 3, "flag": True}))
+    out.append(("post_multi_ref", {}, {"title": "q\"uoted ü", "note": "n"}))
     return out
 
 
@@ -490,7 +495,7 @@ def judge(op, vals, bodyv, raw, base_path, exe):
                 h, _, c = chunk.lstrip(b"\r\n").partition(b"\r\n\r\n")
                 nm = re.search(rb'name="([^"]*)"', h)
                 parts[nm.group(1).decode() if nm else "?"] = c[:-2] if c.endswith(b"\r\n") else c
-            want = {k: (bytes(v) if isinstance(v, list) else v.encode("utf-8")) for k, v in bodyv.items()}
+            want = {k: (bytes(v) if isinstance(v, list) else wire_text(v).encode("utf-8")) for k, v in bodyv.items()}
             if parts != want:
                 out.append((f"multipart parts {parts} differ from the value {want}", None))
     return out
